@@ -472,6 +472,9 @@ func (s *session) visitNode(sprint *sprint, run flows.Run, node flows.Node, trig
 
 			// check if this action has errored the run
 			if run.Status() == flows.RunStatusFailed {
+				// a flow which an earlier action on this node asked to enter must not be entered from a failed run
+				s.pushedFlow = nil
+
 				return step, nil, "", nil
 			}
 		}
